@@ -10,13 +10,16 @@ wt=/tmp/mut/verify-$tag
 rm -rf "$wt"; mkdir -p /tmp/mut
 git -C /repo worktree add --detach "$wt" HEAD -q || exit 3
 pkgdir=$(python3 -c "import json,sys; print(json.load(open('$d/meta.json')).get('demo_package_dir','.'))")
+# the demo's own test functions
+pat=$(grep -o 'func Test[A-Za-z0-9_]*' "$d/demo_test.go" | sed 's/func //' | sort -u | tr '\n' '|' | sed 's/|$//')
+[ -n "$pat" ] || pat='Seeded|Demo' 
 # clean tree: demo passes
 cp "$d/demo_test.go" "$wt/$pkgdir/zz_seeded_demo_test.go"
-( cd "$wt/$pkgdir" && go test -vet=off -count=1 -run 'Seeded|C[0-9][0-9]M[12]|Demo' . > /tmp/mut/verify-$tag.clean.log 2>&1 ); clean=$?
+( cd "$wt/$pkgdir" && go test -vet=off -count=1 -run "^($pat)\$" . > /tmp/mut/verify-$tag.clean.log 2>&1 ); clean=$?
 rm "$wt/$pkgdir/zz_seeded_demo_test.go"
 if ! git -C "$wt" apply "$d/patch.diff"; then echo "VERIFY $d: PATCH DOES NOT APPLY"; git -C /repo worktree remove --force "$wt"; exit 3; fi
 ( cd "$wt" && go build ./... && go test -vet=off -count=1 ./... > /tmp/mut/verify-$tag.suite.log 2>&1 ); suite=$?
 cp "$d/demo_test.go" "$wt/$pkgdir/zz_seeded_demo_test.go"
-( cd "$wt/$pkgdir" && go test -vet=off -count=1 -run 'Seeded|C[0-9][0-9]M[12]|Demo' . > /tmp/mut/verify-$tag.mut.log 2>&1 ); mut=$?
+( cd "$wt/$pkgdir" && go test -vet=off -count=1 -run "^($pat)\$" . > /tmp/mut/verify-$tag.mut.log 2>&1 ); mut=$?
 echo "VERIFY $d: demo_on_clean_exit=$clean suite_on_changed_exit=$suite demo_on_changed_exit=$mut  => $([ $clean -eq 0 ] && [ $suite -eq 0 ] && [ $mut -ne 0 ] && echo CONFIRMED || echo NOT-CONFIRMED)"
 git -C /repo worktree remove --force "$wt"
